@@ -624,7 +624,10 @@ def il_report(ctx, what, payload, per_key=2):
 SL_REQUESTS = [("CWD", "/priv"), ("CWD", "/pub"), ("CWD", "/rw/d"), ("CWD", "/pub/sub"), ("MLST", "/priv/f"), ("MLST", "/pub/f"), ("MLST", "/rw/f"), ("MLST", "/top"),
                ("MKD", "/new"), ("MKD", "/pub/new"), ("MKD", "/rw/new"), ("MKD", "/priv/d/new"), ("DELE", "/pub/sub/g"), ("DELE", "/priv/f"), ("DELE", "/rw/f"),
                ("RMD", "/rw/d"), ("RMD", "/priv/d"), ("RNFR", "/pub/f"), ("RNFR", "/rw/f"), ("MLST", "f"), ("MKD", "d/n2"), ("CWD", ".."), ("CWD", "/")]
-SL_FLAG = {"CWD": 0, "MLST": 0, "MKD": 1, "RMD": 1, "DELE": 1, "RNFR": 1}
+SL_FLAG = {"CWD": 0, "MLST": 0, "MKD": 1, "RMD": 1, "DELE": 1, "RNFR": 1, "RNTO": 1}
+# rename with the working directory moved between RNFR and RNTO; `f` exists under /pub, /priv and /rw, `d` under /priv and /rw
+SL_RENAMES = [(a, src, b, dst) for a in ("/pub", "/rw", "/priv", "/rw/d") for src in ("f", "d", "../f") for b in ("/rw", "/pub", "/priv", "/")
+              for dst in ("/rw/moved", "moved", "/pub/moved", "/rw/d/moved") if a != b]
 SL_ANON_TABLE = [("/", True, False), ("/rw", False, False), ("/priv/d", True, True)]
 
 
@@ -660,7 +663,8 @@ def run_session(ti, events):
                 before = ftpsim.final_tree(server, "memory")
                 lines = await raw.send(f"{ev[0]} {ev[1]}")
                 ob["codes"], ob["lines"] = simnet.final_codes(lines), lines
-                ob["tree_changed"] = ftpsim.final_tree(server, "memory") != before
+                ob["diff"] = tree_diff(before, ftpsim.final_tree(server, "memory"))
+                ob["tree_changed"] = bool(ob["diff"])
                 pw_lines = await raw.send("PWD")
                 ob["pwd"] = pw_lines[-1][4:].strip().strip('"') if simnet.final_codes(pw_lines) == ["257"] else None
             obs.append(ob)
@@ -679,6 +683,7 @@ def session_oracle(ti, events, obs):
     """-> (problems [(step, kind, detail)], model history)"""
     us = sl_users(ti)
     cur, cwd = None, "/"
+    rn = None  # the location named by the pending RNFR: normalize(cwd at the RNFR, its argument)
     problems, mh = [], []
     for k, (ev, ob) in enumerate(zip(events, obs)):
         if "error" in ob:
@@ -686,7 +691,7 @@ def session_oracle(ti, events, obs):
             break
         if ev[0] == "LOGIN":
             if ob["codes"] == ["230"]:
-                cur, cwd = ev[1], "/"
+                cur, cwd, rn = ev[1], "/", None
                 mh.append([0, [2, "/", "/", [[i, p, r, w] for i, (p, r, w) in enumerate(us[cur][3])]]])
             else:
                 problems.append((k, "login-failed", f"login as {us[ev[1]][0]} answered {ob['codes']}"))
@@ -702,8 +707,24 @@ def session_oracle(ti, events, obs):
         who = us[cur][0]
         mh.append([1, [SL_FLAG[verb]], arg])
         ob["model_index"] = sum(1 for e in mh if e[0] == 1) - 1
+        ents = [entry_parts(p) for p, _, _ in table]
+        # whatever is decided: the tree may only change where the current user's nearest entry is writable
+        for path in ob.get("diff", []):
+            j = py_nearest(ents, list(path))
+            if j >= 0 and not table[j][2]:
+                problems.append((k, f"modified-unwritable-{verb.lower()}", f"{verb} {arg!r} as {who} (cwd {cwd}): the tree changed at /{'/'.join(path)}, governed by "
+                                 f"entry {j} {table[j]} (not writable)"))
+        if verb == "RNTO" and ob["codes"] == ["250"]:
+            want = sorted([tuple(rn or ()), tuple(norm)])
+            if sorted(ob.get("diff", [])) != want and rn != norm:
+                problems.append((k, "rnto-wrong-object", f"RNTO {arg!r} as {who} (cwd {cwd}) after an RNFR that named /{'/'.join(rn or [])}: the tree changed at "
+                                 f"{['/' + '/'.join(x) for x in ob.get('diff', [])]}, the rename authorised is /{'/'.join(rn or [])} -> /{'/'.join(norm)}"))
+        if verb == "RNFR" and ob["codes"] == ["350"]:
+            rn = norm
+        if verb == "RNTO" and ob["codes"] in (["250"], ["451"]):
+            rn = None
         if not allowed:
-            if ob["codes"] != ["550"]:
+            if ob["codes"] != ["550"] and not (verb == "RNTO" and ob["codes"] == ["503"]):
                 problems.append((k, f"deny-{verb.lower()}", f"{verb} {arg!r} as {who} (cwd {cwd}) is governed by entry {idx} {table[idx]} of {who}'s table (not allowed) but answered {ob['codes']}"))
             if ob.get("tree_changed") or ob.get("pwd") != cwd:
                 problems.append((k, f"deny-{verb.lower()}", f"refused {verb} {arg!r} as {who}: tree changed={ob.get('tree_changed')}, working directory {ob.get('pwd')!r} (was {cwd!r})"))
@@ -723,6 +744,9 @@ def gen_session(rng):
     block = rng.sample(SL_REQUESTS, rng.randint(3, 6))
     for j, k in enumerate(order):
         ev.append(("LOGIN", k))
+        if rng.random() < 0.6:
+            a, src, b, dst = rng.choice(SL_RENAMES)
+            ev.extend([("CWD", a), ("RNFR", src), ("CWD", b), ("RNTO", dst), ("CWD", "/")])
         ev.extend(block)
         if rng.random() < 0.5:
             ev.extend(rng.sample(SL_REQUESTS, 2))
@@ -756,8 +780,8 @@ def stream_sessions(ctx, xcheck):
             continue
         for ob in obs:
             mi = ob.get("model_index")
-            if mi is None or mi >= len(mo[1]) or not mo[1][mi]:
-                continue
+            if mi is None or mi >= len(mo[1]) or not mo[1][mi] or ob["codes"] == ["503"]:
+                continue  # 503: RNTO without a pending RNFR is refused before the permission decorator runs
             decision = mo[1][mi][0]
             denied_pd = ob["codes"] == ["550"] and "permission denied" in " ".join(ob["lines"])
             if (decision == 550 and ob["codes"] != ["550"]) or (decision == 0 and denied_pd):
